@@ -651,6 +651,11 @@ func loadBasicSegment(sloc *SegmentLoc) (Segment, error) {
 		}
 
 		buf = sloc.mref.buf[bufStart : bufStart+sloc.BufBytes]
+	} else {
+		// A segment whose keys and values are all empty has no buf bytes,
+		// but its (empty) keys and vals must still be non-nil slices:
+		// a nil val means "no such entry" to the callers of Get().
+		buf = []byte{}
 	}
 
 	return &segment{
